@@ -229,8 +229,8 @@ def hyp_blocks(ctx, n):
 def tasks(tier, seed):
     full = tier == 'thorough'
     t = [('sweep_pairs', {}), ('sweep_digits', {}), ('fresh', {})]
-    for i in range(6 if not full else 13):
-        t.append(('hyp_blocks', dict(n=120 if not full else 1500)))
+    for i in range(12 if not full else 13):
+        t.append(('hyp_blocks', dict(n=250 if not full else 1500)))
     return t
 
 
